@@ -72,9 +72,9 @@ RNext == UNCHANGED <<tree, tree2, layout>> /\
      /\ tc' \in Edits(tc) /\ n' = n + 1 /\ UNCHANGED <<ta, tb, phase>>
 
 REmit == (phase = "edit2" /\ n = 2) =>
-  LET E == DenT(ta) V == DenT(tb) W == DenT(tc) IN
+  \A E \in {DenT(ta)} : \A V \in {DenT(tb)} : \A W \in {DenT(tc)} : \A M \in {SchemaMerge(E, V)} :
   CSVWrite("%1$s", <<ToJson([e |-> RenderL(ta, LayE), v |-> RenderL(tb, LayV), v2 |-> RenderL(tc, LayV),
-                             schema |-> SchemaMerge(E, V), lazy |-> LazyMerge(E, V),
-                             schema2 |-> SchemaMerge(SchemaMerge(E, V), V),
-                             schema12 |-> SchemaMerge(SchemaMerge(E, V), W)])>>, IOEnv.OUT)
+                             schema |-> M, lazy |-> LazyMerge(E, V),
+                             schema2 |-> SchemaMerge(M, V),
+                             schema12 |-> SchemaMerge(M, W)])>>, IOEnv.OUT)
 =============================================================================
